@@ -45,6 +45,8 @@ type TxnRec struct {
 	Err       string  `json:"err,omitempty"` // result of Commit / Update / View
 	Began     bool    `json:"began"`
 	Finished  bool    `json:"finished"` // the finishing call returned
+	ReadTs    uint64  `json:"read_ts,omitempty"`   // the engine's read timestamp (verif accessor)
+	CommitTs  uint64  `json:"commit_ts,omitempty"` // resolved after the run for transactions the real-time rule cannot order (C07); 0 = unknown
 }
 
 // Event is one entry of a client's history.
@@ -114,6 +116,9 @@ type Runner struct {
 	commits  int          // successful commits with writes so far
 	waiting  map[int]bool // clients parked in a "wait" op
 	finished map[int]bool // clients that ran to the end of their program
+
+	ssiViews []*txnView       // C07: committed transactions that have finished
+	ssiTried map[*TxnRec]bool // C07: commit timestamp already asked for
 }
 
 var errClosure = errors.New("closure failed on purpose")
@@ -301,6 +306,7 @@ func (r *Runner) runTxn(client int, t *TxnProg) *TxnRec {
 		fn := func(txn *originium.Txn) error {
 			rec.BeginRet = r.s.Seq()
 			rec.Began = true
+			rec.ReadTs = txn.VerifReadTs()
 			r.s.APIEnd()
 			for _, op := range t.Ops {
 				rec.Ops = append(rec.Ops, r.doOp(client, txn, op))
@@ -336,6 +342,7 @@ func (r *Runner) runTxn(client int, t *TxnProg) *TxnRec {
 		txn := db.Begin(t.Mode == "rw")
 		rec.BeginRet = r.s.Seq()
 		rec.Began = true
+		rec.ReadTs = txn.VerifReadTs()
 		r.s.APIEnd()
 		for _, op := range t.Ops {
 			rec.Ops = append(rec.Ops, r.doOp(client, txn, op))
@@ -449,6 +456,7 @@ func (r *Runner) runClient(ci int) {
 			case "txn":
 				rec := r.runTxn(ci, a.Txn)
 				r.hist.Clients[ci] = append(r.hist.Clients[ci], Event{Kind: "txn", Txn: rec})
+				r.noteFinished(rec)
 			case "drain":
 				r.drain()
 			case "restart", "restart-closedops":
@@ -510,7 +518,7 @@ func RunCase(t *testing.T, c *Case, trace bool) *RunResult {
 	}
 	defer os.RemoveAll(dir)
 	res := &RunResult{Case: c, Probes: Probes{}}
-	r := &Runner{c: c, dir: dir, vals: map[string]int{}, res: res, waiting: map[int]bool{}, finished: map[int]bool{},
+	r := &Runner{c: c, dir: dir, vals: map[string]int{}, res: res, waiting: map[int]bool{}, finished: map[int]bool{}, ssiTried: map[*TxnRec]bool{},
 		hist: &History{Clients: make([][]Event, len(c.Clients))}}
 	res.Hist = r.hist
 	opt := simrt.Options{
@@ -631,4 +639,61 @@ func RunCase(t *testing.T, c *Case, trace bool) *RunResult {
 	}
 	res.WallNS = time.Since(start).Nanoseconds()
 	return res
+}
+
+// Commit timestamps for C07. For the transactions whose order the real-time
+// rule of CheckSSI cannot decide (commits overlapping the judged transaction's
+// Begin or Commit) the run asks the engine which commit timestamp it gave them:
+// the smallest timestamp at which a read of a key they Set returns the (unique)
+// value they wrote. It is asked as soon as both transactions of such a pair have
+// finished (later, compaction may have discarded the version; then it stays 0).
+func (r *Runner) noteFinished(rec *TxnRec) {
+	if r.c.Prop != "C07" || r.c.Sim.OpAtomic || !rec.Finished || !rec.Began {
+		return
+	}
+	vx := viewOf(rec)
+	if !vx.committed {
+		return
+	}
+	for _, vt := range r.ssiViews {
+		if len(vt.reads) == 0 {
+			continue
+		}
+		if _, amb := ssiOverlaps(vt.t, vt, []*txnView{vx}); len(amb) > 0 {
+			r.resolveCommitTs(vt)
+			r.resolveCommitTs(vx)
+		}
+	}
+	if len(vx.reads) > 0 {
+		_, amb := ssiOverlaps(rec, vx, r.ssiViews)
+		for _, u := range amb {
+			r.resolveCommitTs(vx)
+			r.resolveCommitTs(u)
+		}
+	}
+	r.ssiViews = append(r.ssiViews, vx)
+}
+
+func (r *Runner) resolveCommitTs(v *txnView) {
+	t := v.t
+	if r.ssiTried[t] || !r.open {
+		return
+	}
+	r.ssiTried[t] = true
+	for _, k := range v.wkeys {
+		w := v.writes[k]
+		if !w.present || w.pad < 0 || w.id == "" {
+			continue // deletions and empty values are not attributable to one writer
+		}
+		for ts := t.ReadTs + 1; ts <= t.ReadTs+uint64(r.commits)+4; ts++ {
+			got, ok := r.db.VerifGetAt(k, ts)
+			r.res.Probes["commit_ts_probes"]++
+			if ok && r.gotID(got, true) == w.id {
+				t.CommitTs = ts
+				r.res.Probes["commit_ts_resolved"]++
+				return
+			}
+		}
+	}
+	r.res.Probes["commit_ts_unknown"]++
 }
